@@ -35,7 +35,7 @@ pub fn generate(ctx: &mut Ctx) {
         }
         bi += 1;
     }
-    let n = ctx.random_budget(480, 60_000, 3_000_000);
+    let n = ctx.random_budget(480, 240_000, 3_000_000);
     for i in 0..n {
         let mut rng = ctx.rng("ref", i);
         let mut o = gen::Opts::new(rng.chance(1, 2));
